@@ -102,6 +102,13 @@ Step ==
                        /\ (\E h \in Hs : Conf[h].kind = "daemon" /\ ~selfexited[h] /\ ~(alive[h] > 0 /\ ~flagged[h]))
                     THEN (IF \E h \in Hs : Registered(h) /\ rematch[h] THEN Bad("F18") ELSE Bad("matching_object_without_live_instance"))
                ELSE IF obj.exists /\ (obj.deleting \/ ~obj.match) /\ (\E h \in Hs : alive[h] > 0 /\ ~flagged[h]) THEN Bad("instance_not_asked_to_stop")
+               \* "cancellation after the backoff" (only with a cancellation_timeout: without one the framework just polls): an instance that
+               \* was asked to stop, has not left and is still wanted gone is cancelled
+               \* once the backoff has passed (the world is at rest here, long after it)
+               ELSE IF obj.exists /\ (obj.deleting \/ ~obj.match) /\ ~exiting
+                       /\ (\E h \in Hs : Conf[h].kind = "daemon" /\ Conf[h].timeout > 0 /\ alive[h] > 0 /\ flagged[h] /\ ~cancelled[h] /\ ~rematch[h]
+                                           /\ E.t > when[h] + Conf[h].backoff + 2)
+                    THEN Bad("never_cancelled_after_the_backoff")
                ELSE Good
 
 Next == Step
